@@ -175,10 +175,12 @@ static void emit(std::string const& step, nlohmann::ordered_json const& j) {
 template <class R>
 static int rcalls(std::string const& file) {
   std::string op;
+  bool keepgoing = false; int status = 0;
   try {
     R r(file);
     std::cout << "OPEN" << std::endl;
     while (std::cin >> op) {
+      if (op == "keepgoing") { keepgoing = true; continue; }
       try {
         if (op == "close") { r.Close(); std::cout << "OK close" << std::endl; continue; }
         int i; std::cin >> i;
@@ -190,23 +192,26 @@ static int rcalls(std::string const& file) {
         }
       } catch (std::exception const& e) {
         std::cout << "EXC " << e.what() << std::endl;
-        return 1;
+        if (!keepgoing) return 1;
+        status = 1;
       }
     }
   } catch (std::exception const& e) {
     std::cout << "EXC-OPEN " << e.what() << std::endl;
     return 1;
   }
-  return 0;
+  return status;
 }
 
 template <class W>
 static int wcalls(std::string const& file) {
   std::string op;
+  bool keepgoing = false; int status = 0;
   try {
     W w(file);
     std::cout << "OPEN" << std::endl;
     while (std::cin >> op) {
+      if (op == "keepgoing") { keepgoing = true; continue; }
       try {
         if (op == "close") { w.Close(); std::cout << "OK close" << std::endl; continue; }
         int i; std::cin >> i;
@@ -218,7 +223,8 @@ static int wcalls(std::string const& file) {
         }
       } catch (std::exception const& e) {
         std::cout << "EXC " << e.what() << std::endl;
-        return 1;
+        if (!keepgoing) return 1;
+        status = 1;
       }
     }
     w.Flush();
@@ -226,7 +232,7 @@ static int wcalls(std::string const& file) {
     std::cout << "EXC-OPEN " << e.what() << std::endl;
     return 1;
   }
-  return 0;
+  return status;
 }
 
 int main(int argc, char** argv) {
